@@ -4,8 +4,9 @@ C04 — setNestedStructWithDepth's shortcut: a nested struct field whose *own* k
 looks like a JSON object or array and that `json.Unmarshal` accepts for the field is that decoded
 struct; the dotted keys, the defaults and the limits inside it play no part. What `encoding/json`
 makes of the string is shipped (`PEntry.nj`). `bindJ` is `bind` with this step in front of every nested
-bind; where no shipped entry says a string decodes, it *is* `bind` (`bindJ_eq_bind`), so everything
-proved about `bind` carries over to the cases without a shortcut. Core Lean only.
+bind - in front of the nested bind's depth check too, as in the code: the shortcut is taken also where the
+nested struct would lie beyond the depth limit; where no shipped entry says a string decodes, it *is* `bind`
+(`bindJ_eq_bind`), so everything proved about `bind` carries over to the cases without a shortcut. Core Lean only.
 -/
 namespace Rivaas.Bind
 
@@ -25,31 +26,102 @@ def nestShortcut (P : Params) (g : Getter) : Option Val :=
   let v := baseGet g.src g.pre.dropLast
   if v != [] && looksJSON v then (P v).nj else none
 
-def withShortcut (P : Params) (nest : Nest) : Nest := fun nfs v g d =>
-  match nestShortcut P g with
-  | some dv => .ok dv
-  | none => nest nfs v g d
+/-- one iteration of the loop with the first step of setNestedStructWithDepth in front: a nested struct field whose
+    own key holds a JSON value the decoder accepts *is* that value - before the nested bind and its depth check are
+    reached (so also at the depth limit) -/
+def fieldActionJ (P : Params) (cfg : Cfg) (nest : Nest) (g : Getter) (depth : Nat) (f : FieldInfo) (cur : Val) :
+    Val ⊕ Stop :=
+  if !isMapTy f.ty && isStructTy f.ty then
+    match nestShortcut P (g.push f.tagName) with
+    | some dv => .inl (rewrap f.ty dv)
+    | none => fieldAction P cfg nest g depth f cur
+  else fieldAction P cfg nest g depth f cur
+
+/-- `loopWith` with `fieldActionJ` -/
+def loopWithJ (P : Params) (cfg : Cfg) (nest : Nest) (sty : List Fld) :
+    List FieldInfo → Val → Getter → Nat → Outcome
+  | [], elem, _, _ => .ok elem
+  | f :: rest, elem, g, depth =>
+    match reach elem f.index with
+    | .bad => .panic
+    | _ =>
+      if !wants g f then loopWithJ P cfg nest sty rest elem g depth
+      else
+        let elem1 := updAt (.struct sty) elem f.index id
+        match reach elem1 f.index with
+        | .ok cur =>
+          match fieldActionJ P cfg nest g depth f cur with
+          | .inl nv => loopWithJ P cfg nest sty rest (updAt (.struct sty) elem1 f.index (fun _ => nv)) g depth
+          | .inr o => o.out
+        | _ => .panic
 
 def bindAtJ (P : Params) (cfg : Cfg) (tag : Tag) : Nat → Nest
   | 0 => fun sty elem g depth =>
-    loopWith P cfg (fun _ _ _ _ => .err .depth) sty (flatten P tag sty) elem g depth
+    loopWithJ P cfg (fun _ _ _ _ => .err .depth) sty (flatten P tag sty) elem g depth
   | n + 1 => fun sty elem g depth =>
-    loopWith P cfg (withShortcut P (bindAtJ P cfg tag n)) sty (flatten P tag sty) elem g depth
+    loopWithJ P cfg (bindAtJ P cfg tag n) sty (flatten P tag sty) elem g depth
 
 def bindJ (P : Params) (cfg : Cfg) (tag : Tag) (ty : Ty) (init : Val) (src : Src) : Outcome :=
   match ty with
   | .struct fs => bindAtJ P cfg tag cfg.maxDepth fs init { src := src } 0
   | _ => .err .conv
 
+theorem lemma_nestShortcut_none (P : Params) (h : ∀ s, (P s).nj = none) (g : Getter) : nestShortcut P g = none := by
+  simp only [nestShortcut, h]
+  split <;> rfl
+
+theorem lemma_fieldActionJ_eq (P : Params) (cfg : Cfg) (nest : Nest) (h : ∀ s, (P s).nj = none) (g : Getter) (depth : Nat)
+    (f : FieldInfo) (cur : Val) : fieldActionJ P cfg nest g depth f cur = fieldAction P cfg nest g depth f cur := by
+  unfold fieldActionJ
+  split
+  · simp only [lemma_nestShortcut_none P h]
+  · rfl
+
+theorem lemma_loopWithJ_eq (P : Params) (cfg : Cfg) (nest : Nest) (sty : List Fld) (h : ∀ s, (P s).nj = none) :
+    ∀ (fis : List FieldInfo) (elem : Val) (g : Getter) (depth : Nat),
+      loopWithJ P cfg nest sty fis elem g depth = loopWith P cfg nest sty fis elem g depth
+  | [], _, _, _ => rfl
+  | f :: rest, elem, g, depth => by
+    have tail : (if (!wants g f) = true then loopWithJ P cfg nest sty rest elem g depth
+        else match reach (updAt (.struct sty) elem f.index id) f.index with
+          | .ok cur =>
+            match fieldActionJ P cfg nest g depth f cur with
+            | .inl nv => loopWithJ P cfg nest sty rest (updAt (.struct sty) (updAt (.struct sty) elem f.index id) f.index (fun _ => nv)) g depth
+            | .inr o => o.out
+          | _ => .panic) =
+        (if (!wants g f) = true then loopWith P cfg nest sty rest elem g depth
+        else match reach (updAt (.struct sty) elem f.index id) f.index with
+          | .ok cur =>
+            match fieldAction P cfg nest g depth f cur with
+            | .inl nv => loopWith P cfg nest sty rest (updAt (.struct sty) (updAt (.struct sty) elem f.index id) f.index (fun _ => nv)) g depth
+            | .inr o => o.out
+          | _ => .panic) := by
+      by_cases hw : (!wants g f) = true
+      · simp only [hw, if_true]
+        exact lemma_loopWithJ_eq P cfg nest sty h rest elem g depth
+      · simp only [hw, Bool.false_eq_true, if_false]
+        cases reach (updAt (.struct sty) elem f.index id) f.index with
+        | ok cur =>
+          simp only [lemma_fieldActionJ_eq P cfg nest h]
+          cases fieldAction P cfg nest g depth f cur with
+          | inl nv => exact lemma_loopWithJ_eq P cfg nest sty h rest _ g depth
+          | inr o => rfl
+        | nilptr => rfl
+        | bad => rfl
+    unfold loopWithJ loopWith
+    cases reach elem f.index with
+    | bad => rfl
+    | nilptr => exact tail
+    | ok v => exact tail
+
 theorem lemma_bindAtJ_eq (P : Params) (cfg : Cfg) (tag : Tag) (h : ∀ s, (P s).nj = none) :
     ∀ n, bindAtJ P cfg tag n = bindAt P cfg tag n
-  | 0 => rfl
+  | 0 => by
+    funext sty elem g depth
+    simp only [bindAtJ, bindAt, lemma_loopWithJ_eq P cfg _ sty h]
   | n + 1 => by
     have ih := lemma_bindAtJ_eq P cfg tag h n
-    have hw : withShortcut P (bindAtJ P cfg tag n) = bindAt P cfg tag n := by
-      funext nfs v g d
-      simp only [withShortcut, nestShortcut, h, ih]
-      split <;> simp_all
-    simp only [bindAtJ, bindAt, hw]
+    funext sty elem g depth
+    simp only [bindAtJ, bindAt, ih, lemma_loopWithJ_eq P cfg _ sty h]
 
 end Rivaas.Bind
